@@ -273,6 +273,38 @@ func streamMalformed(c *Ctx) {
 			c.malformedOps([][]byte{raw[0], raw[1], pad, raw[2]}, "start+padding+continuation")
 		}
 	}
+	// hand-assembled sequence starts: every (namespace kind, share version) with declared sequence lengths in
+	// the windows where the capacity of a first share changes (compact 474, with a signer 454 / 458, sparse
+	// 478, two shares) - a decoder that predicts the share count from the length alone, or takes the first
+	// share's payload for the whole sequence, leaves the buffer exactly there (seeded change C16-O)
+	{
+		lens := []uint32{0, 1, 2, 453, 454, 455, 456, 457, 458, 459, 460, 470, 473, 474, 475, 477, 478, 479, 482, 483, 511, 512, 935, 936, 940, 941, 955, 956, 959, 960, 961, 1 << 16, 1<<31 - 1, 1 << 31, 1<<32 - 1}
+		nss := [][]byte{share.TxNamespace.Bytes(), share.PayForBlobNamespace.Bytes(), c.userNamespaces(1)[0].Bytes(), share.PrimaryReservedPaddingNamespace.Bytes()}
+		for ni, ns := range nss {
+			for _, ver := range []byte{0, 1, 2, 127} {
+				if ver >= 2 && ni >= 2 {
+					continue
+				}
+				for li, l := range lens {
+					first := c.rng.Bytes(512)
+					copy(first, ns)
+					first[29] = ver<<1 | 1
+					first[30], first[31], first[32], first[33] = byte(l>>24), byte(l>>16), byte(l>>8), byte(l)
+					if ni < 2 && c.rng.Bool() {
+						first[34], first[35], first[36], first[37] = 0, 0, 0, byte(38+c.rng.Intn(4)*20)
+					}
+					c.malformedOps([][]byte{first}, "hand-start")
+					if (li+ni)%3 == 0 {
+						cont := c.rng.Bytes(512)
+						copy(cont, ns)
+						cont[29] = ver << 1
+						c.malformedOps([][]byte{first, cont}, "hand-start+cont")
+					}
+				}
+			}
+		}
+		c.dist("hand-start")
+	}
 	nc := c.n(1500, 60000)
 	for i := 0; i < nc; i++ {
 		switch c.rng.Intn(5) {
